@@ -4,10 +4,13 @@
     Proved here: [C08_widths], [C08_closed] (with the provenance of every definition),
     [C08_decodes_refuted] (the full-strength decoding statement is FALSE of the faithful model,
     and of the implementation: known finding F13), and computed instances of the decoding and
-    validation statements on nested types.  NOT proved (see NOTES-schemaof.md): the general
-    [C08_decodes] / [C08_validates] / [C14_agree] for name-coherent types. *)
+    validation statements on nested types; and, for NAME-COHERENT types ([coherent t]: in the
+    full unfolding [calls t] of the type a declaration string is paired with one definition only --
+    decidable, and exactly what [add_definition]'s [assert_eq!] is meant to enforce),
+    [C08_decodes_partial], [C08_validates], [C10_rust], [C14_agree]. *)
 From Coq Require Import String List NArith ZArith.
-From Borsh Require Import Bytes Result Ty Ser De Schema SchemaFns SchemaOf SchemaDec SchemaOfFacts.
+From Borsh Require Import Bytes Result Ty Ser De C04Facts Schema SchemaFns SchemaSpec SchemaOf SchemaDec SchemaOfFacts
+     SchemaOfCover SchemaOfDecode SchemaOfValidate SchemaOfFits.
 Import ListNotations.
 Local Open Scope N_scope.
 Local Open Scope string_scope.
@@ -118,20 +121,108 @@ Proof.
   repeat split; eexists; (split; [vm_compute; reflexivity|vm_compute; reflexivity]).
 Qed.
 
-(** * Statements NOT proved in this file (true only for name-coherent types; see NOTES-schemaof.md)
-    Let [coherent t] say: in [calls t] a declaration string is paired with one definition only.
+(** * Name-coherent types
+    [coherent t = true]: no declaration string stands for two different definitions anywhere in the
+    unfolding of [t].  Without it the statements below are false ([C08_decodes_refuted]); the
+    implementation's [assert_eq!] enforces it only one level deep (F13). *)
 
-    C08_decodes :
-      wf t = true -> has_schema t = true -> coherent t -> schema_of t = Ok c ->
-      has_ty t v = true -> enc t v = Ok bs ->
-      exists fuel, sdec c (decl_of t) fuel bs = Some (erase t (logical t v), []).
-    C08_validates :
-      has_schema t = true -> coherent t -> schema_of t = Ok c ->
-      (validate c = SOk tt <-> t has no subterm [TSeq k e] with [e] wire-empty),
-      where wire-empty is structural: units, arrays of length 0 or of wire-empty elements,
-      tuples / structs whose non-skipped fields are wire-empty, transparent wrappers of those.
-    C14_agree :
-      has_schema e = true -> coherent e -> schema_of (TSeq SVec e) = Ok c ->
-      (mem_zst e = true -> wire-empty e -> validate c = SErr (ZSTSequence (decl_of (TSeq SVec e)))) /\
-      (~ wire-empty e -> forall d, validate c <> SErr (ZSTSequence (decl_of (TSeq SVec e)))).
-    Without [coherent] all three are false ([C08_decodes_refuted]). *)
+(** Under coherence the container holds every definition the type's impls register. *)
+Theorem C08_covers :
+  forall t c, has_schema t = true -> coherent t = true -> schema_of t = Ok c ->
+    forall d def, In (d, def) (calls t) -> lookup (defs c) d = Some def.
+Proof. exact schema_of_covers. Qed.
+Print Assumptions C08_covers.
+
+(** [C08_decodes] (full statement: the same without [coherent t = true] and [dflt_ok t = true];
+    refuted above).  [dflt_ok t]: the [Default] of every skipped field is a value of the field's
+    type (true of every Rust type; decidable; the hypothesis C04's [dec_typed] needs).
+    Decoding the bytes of any value with nothing but the container consumes exactly all bytes and
+    rebuilds the value's structure: field order and names, variant names and tag values, element
+    counts, primitive widths ([erase]). *)
+Theorem C08_decodes_partial :
+  forall t v c bs,
+    wf t = true -> dflt_ok t = true -> has_schema t = true -> coherent t = true ->
+    schema_of t = Ok c -> has_ty t v = true -> enc t v = Ok bs ->
+    exists fuel, sdec c (decl_of t) fuel bs = Some (erase t (logical t v), []).
+Proof. exact schema_decodes. Qed.
+Print Assumptions C08_decodes_partial.
+
+(** ... with any larger fuel, and leaving whatever follows the encoding untouched *)
+Theorem C08_decodes_stream :
+  forall t v c bs,
+    wf t = true -> dflt_ok t = true -> has_schema t = true -> coherent t = true ->
+    schema_of t = Ok c -> has_ty t v = true -> enc t v = Ok bs ->
+    forall fuel rest, (sdepth t <= fuel)%nat ->
+      sdec c (decl_of t) fuel (bs ++ rest)%list = Some (erase t (logical t v), rest).
+Proof. exact schema_decodes_stream. Qed.
+Print Assumptions C08_decodes_stream.
+
+(** [C08_validates] / [C10_rust]: the container of a Rust type passes its own validation exactly
+    when the type has no dynamically sized collection whose elements always encode to zero bytes
+    ([no_empty_coll], [wire_empty]: structural predicates on the type; skipped fields are not on
+    the wire).  [ranges_fit 64 c]: array lengths are [u64]s (needed, as in C10_exact, for the
+    left-to-right half only). *)
+Theorem C08_validates :
+  forall t c, has_schema t = true -> coherent t = true -> schema_of t = Ok c ->
+    ranges_fit 64 c -> (validate c = SOk tt <-> no_empty_coll t = true).
+Proof. exact schema_validates. Qed.
+Print Assumptions C08_validates.
+
+(** [C10_rust]: the same with structural hypotheses only ([arrays_fit t]: every array length of
+    the type is a 64-bit [usize], which makes [ranges_fit 64 c] a theorem). *)
+Theorem C10_rust :
+  forall t c, has_schema t = true -> coherent t = true -> arrays_fit t = true -> schema_of t = Ok c ->
+    (validate c = SOk tt <-> no_empty_coll t = true).
+Proof. exact schema_validates_structural. Qed.
+Print Assumptions C10_rust.
+
+Theorem C08_validates_ok :
+  forall t c, has_schema t = true -> coherent t = true -> schema_of t = Ok c ->
+    no_empty_coll t = true -> validate c = SOk tt.
+Proof. exact schema_validates_ok. Qed.
+Print Assumptions C08_validates_ok.
+
+(** the schema's notion of zero size is the type's *)
+Theorem C08_zero_sized :
+  forall t c, has_schema t = true -> coherent t = true -> schema_of t = Ok c ->
+    (ZeroSized c (decl_of t) <-> wire_empty t = true).
+Proof. exact zero_sized_iff. Qed.
+Print Assumptions C08_zero_sized.
+
+(** [C14_agree]: for an element type that is empty in memory AND on the wire, the run-time
+    refusal of the collection (C14_refuse_ser / C14_refuse_de: before any length is read) and the
+    [ZSTSequence] verdict of schema validation agree ... *)
+Theorem C14_agree :
+  forall k e c cfg0 v bs,
+    has_schema (TSeq k e) = true -> coherent (TSeq k e) = true -> schema_of (TSeq k e) = Ok c ->
+    ser_checks_zst k = true -> is_map k = false ->
+    mem_zst e = true -> wire_empty e = true ->
+    enc (TSeq k e) v = Err InvalidData MZst /\
+    dec_slice cfg0 (TSeq k e) bs = Err InvalidData MZst /\
+    validate c = SErr (ZSTSequence (decl_of (TSeq k e))).
+Proof. exact agree_runtime. Qed.
+Print Assumptions C14_agree.
+
+(** ... whatever the memory size, wire-empty elements fail validation at the root ... *)
+Theorem C14_agree_empty :
+  forall k e c, has_schema (TSeq k e) = true -> coherent (TSeq k e) = true -> schema_of (TSeq k e) = Ok c ->
+    wire_empty e = true -> validate c = SErr (ZSTSequence (decl_of (TSeq k e))).
+Proof. exact agree_empty. Qed.
+Print Assumptions C14_agree_empty.
+
+(** ... and for element types that do occupy the wire validation never fails that way. *)
+Theorem C14_agree_converse :
+  forall k e c, has_schema (TSeq k e) = true -> coherent (TSeq k e) = true -> schema_of (TSeq k e) = Ok c ->
+    wire_empty e = false -> validate c <> SErr (ZSTSequence (decl_of (TSeq k e))).
+Proof. exact agree_nonempty. Qed.
+Print Assumptions C14_agree_converse.
+
+(** Non-vacuity: the hypotheses hold of the nested example above (derived enum with
+    discriminants, skipped fields, option, hash map, arrays, ip addresses), and fail of the F13 witness. *)
+Example C08_coherent_instance :
+  coherent ex_struct = true /\ dflt_ok ex_struct = true /\ no_empty_coll ex_struct = true /\ arrays_fit ex_struct = true /\
+  coherent refute_t = false /\
+  coherent (TSeq SVec (TProd PTuple [TArray 0 ex_u8; TUnit UPhantom])) = true /\
+  wire_empty (TProd PTuple [TArray 0 ex_u8; TUnit UPhantom]) = true /\
+  mem_zst (TProd PTuple [TArray 0 ex_u8; TUnit UPhantom]) = true.
+Proof. repeat split; vm_compute; reflexivity. Qed.
